@@ -3497,10 +3497,13 @@ class StateEngine(object):
         check that state transitions only occur within the correct "States".
         """
         force_full_lookup = "Branch" in context["State"]
-        state, current_state_machine, state_path = find_state(
-            ASL["States"], current_state, force_full_lookup
-        )
-        if state == None:  # state should be valid by this point
+        try:
+            state, current_state_machine, state_path = find_state(
+                ASL["States"], current_state, force_full_lookup
+            )
+        except Exception:  # The definition has no usable "States" field
+            state, current_state_machine, state_path = None, None, []
+        if not isinstance(state, dict):  # state should be valid by this point
             message = ("{} attempted a transition to a non-existent "
                        "state \"{}\": Illegal State Machine.").format(
                         execution_arn, current_state
@@ -3511,7 +3514,21 @@ class StateEngine(object):
             return
 
         # Determine the ASL state type of the current state.
-        state_type = state["Type"]
+        state_type = state.get("Type")
+        if not isinstance(state_type, str):
+            """
+            Without a Type there is no handler to dispatch to (and no name for
+            the history events), so fail the execution here as is done below
+            for a Type that is a string but not one of the ASL state types.
+            """
+            message = ("{} State \"{}\" has an illegal Type \"{}\": "
+                       "Illegal State Machine.").format(
+                        execution_arn, current_state, state_type
+                      )
+            self.logger.error(message)
+            handle_error({}, "States.Runtime", message)
+            self.event_dispatcher.acknowledge(id)
+            return
 
         """
         Check if the current execution or branch has been terminated due to a
